@@ -372,7 +372,7 @@ CHECKS["C11"] = dict(
 
 CHECKS["C08"] = dict(
     harness="C08_life", sources=["props/C08_life.cc", "shim/shim.c", "pki/pki.cc"], variant="asan",
-    level="fault_enumeration", engine="rapidcheck API programs + complete single-fault enumeration per program in forked children (shim) + ASan",
+    level="fault_enumeration", engine="rapidcheck API programs + complete single-fault enumeration and sampled fault pairs per program in forked children (shim) + ASan",
     technique="fault-injection enumeration: each generated API program is re-run once per resource-creating "
               "system call x plausible errno; invariants on the descriptor table, heap steady state, socket / "
               "control files, foreign-descriptor operations and process survival",
@@ -382,9 +382,14 @@ CHECKS["C08"] = dict(
                "fault-free run (5 repetitions) lists the calls to socket, accept4, epoll_create1, eventfd, "
                "timerfd_create, connect, bind, listen, fopen made inside XCM; then every one of them is made to "
                "fail, one per forked run of 3 repetitions, with each plausible errno (EMFILE, ENOBUFS/ENOMEM, "
-               "ECONNABORTED, ENETUNREACH, ECONNREFUSED, EADDRINUSE, EACCES, ENOENT): complete per program. "
-               "Programs are sampled.",
-    level_note="Single faults only (pairs are not enumerated). Heap: strictly positive, equal growth over three "
+               "ECONNABORTED, EAGAIN for accept4 (a wake-up with nothing to accept), ENETUNREACH, ECONNREFUSED, "
+               "EADDRINUSE, EACCES, ENOENT): complete per program. Accepts on ux, uxf, tcp and btcp servers are "
+               "made in blocking mode when a connection is waiting. On top, 24 fault pairs per program: one of "
+               "the enumerated faults plus a second resource-creating call, 2..13 calls further into the run as "
+               "it goes after the first fault, failing with an errno plausible for whichever call it lands on. "
+               "Short plans are padded with steps derived from the configuration words so that programs reach "
+               "accepted connections at small sizes. Programs and pairs are sampled.",
+    level_note="Single faults complete per program; pairs sampled. Heap: strictly positive, equal growth over three "
                "consecutive repetitions counts as a leak; LeakSanitizer is not used in the children.",
     rule=("case = one program + all its single faults. After every repetition: /proc/self/fd (numbers and "
           "kinds) equals the start table, no file is left in the UXF or control directories, no close()/"
